@@ -3,7 +3,7 @@ from props.m1common import *  # noqa: F401,F403
 from props.m1common import g, sp, sx, rng_for, is_err, compare_result, shrink_tree
 
 PID = "C19"
-KERNELS = ['K_remove_by']   # translated from /repo on every run, tied to the model by coq/Gen/<name>_eq.v
+KERNELS = ['K_remove_by', 'K_tie_step']   # translated from /repo on every run, tied to the model by coq/Gen/<name>_eq.v
 RUNNER = "impl_m1.py"
 N = {"quick": 2100, "thorough": 70000}
 LEVEL_RULE = ("(12 % of the tie cases are UNRESTRICTED ties on sequences of non-empty sequences - whole containers are merged and the survivor rescaled to the run total; model Model/TieAll.v, theorems Proofs/TieAllP.v; leaf lengths compared within one tick per merge step because of half-tick rounding ties) seven operations in equal shares on random sequences / simultaneities with 0-6 children (leaves and nested containers), "
@@ -60,6 +60,8 @@ def gen(seed, index):
         if kk in ("geti", "seti", "deli"):
             i = rng.choice([0, -1, n - 1, -n, n, -n - 1, rng.randint(-n - 2, n + 2)])
             return ["op", t, [kk, i] + ([G.tree(depth=rng.choice([0, 1]))] if kk == "seti" else [])]
+        if kk in ("pyslice", "mul") and rng.random() < 0.3:
+            t[2] = rng.choice([7, 8])        # the receiver carries a tempo trajectory (7) or a WesternTempo with a reference (8)
         if kk == "pyslice":
             def bound():
                 return rng.choice(["none", 0, 1, -1, -2, n, n + 3, -n - 3, rng.randint(-n - 1, n + 1)])
@@ -69,6 +71,36 @@ def gen(seed, index):
         t[0] = "P"
         o = container(rng, G, kind=rng.choice(["P", "P", "S"]))
         return ["op", t, ["gadd", o]]
+    if k in ("get_tag", "set_tag", "del_tag") and rng.random() < 0.2:
+        # a history of 3-6 tag / index operations on ONE container (a child that carries a tag may be put in front of
+        # another one carrying the same tag: "the first child" is decided anew by every operation)
+        t = container(rng, G)
+        ops = []
+        for _ in range(rng.randint(3, 6)):
+            n = max(1, len(t) - 3)
+            kk = rng.choice(["get_tag", "get_tag", "set_tag", "del_tag", "seti", "seti", "deli"])
+            tg = rng.choice([1, 2, 3])
+            if kk == "get_tag":
+                ops.append(["get_tag", tg])
+            elif kk == "del_tag":
+                ops.append(["del_tag", tg])
+            elif kk == "set_tag":
+                ops.append(["set_tag", tg, G.tree(depth=1, kind="S")])
+            elif kk == "seti":
+                ops.append(["seti", rng.choice([0, 0, -1, rng.randint(-n, n)]), G.tree(depth=1, kind="S")])
+            else:
+                ops.append(["deli", rng.choice([0, -1, rng.randint(-n, n)])])
+        tagged = [(i, int(c[1])) for i, c in enumerate(t[3:]) if c[0] != "L" and int(c[1]) != 0]
+        later = [(i, tg) for (i, tg) in tagged if i >= 1 and all(tg2 != tg for (i2, tg2) in tagged if i2 < i)]
+        if later and rng.random() < 0.6:
+            # the pattern that asks most of "first": look a tag up, put a child with the same tag IN FRONT of the one that
+            # was found (or delete / replace the found one), look it up again
+            j, tg = rng.choice(later)
+            front = G.tree(depth=1, kind="S")
+            front[1] = tg
+            ops = [["get_tag", tg], rng.choice([["seti", rng.randrange(j), front], ["seti", rng.randrange(j) - len(t) + 3, front], ["del_tag", tg]]),
+                   rng.choice([["get_tag", tg], ["del_tag", tg], ["set_tag", tg, G.tree(depth=0)]]), ["get_tag", tg]]
+        return ["chist", t] + ops
     if k in ("get_tag", "set_tag", "del_tag"):
         t = container(rng, G)
         present = sorted({int(c[1]) for c in t[3:] if c[0] != "L" and int(c[1]) != 0})
@@ -132,6 +164,18 @@ def gen(seed, index):
 
 
 def compare(case, mo, io):
+    if case[0] == "chist":
+        if len(mo) != len(io):
+            return f"history: model answers {len(mo) - 1} steps, implementation {len(io) - 1}"
+        for k_, (a, b) in enumerate(zip(mo[1:], io[1:])):
+            d = compare_result(a, b)
+            if d:
+                return f"step {k_} {sx.show(case[2 + k_])[:80]}: {d}"
+        return None
+    return compare_single(case, mo, io)
+
+
+def compare_single(case, mo, io):
     if case[0] == "op" and case[2][0] == "tie_all":
         # Model/TieAll.v rounds d * new / old half-to-even on the exact rational; the code evaluates new * (d / old) in
         # binary64, so an exact half-tick tie may fall the other way: leaf lengths are compared within one tick per leaf of the input
@@ -243,6 +287,20 @@ def expect_tree(io, exp, what):
 
 
 def oracle(case, io, mo):
+    if case[0] == "chist":
+        state = case[1]
+        for k_, (op, step) in enumerate(zip(case[2:], io[1:])):
+            single = ["get_tag", state, op[1]] if op[0] == "get_tag" else ["op", state, op]
+            m = oracle_single(single, step, None)
+            if m:
+                return f"step {k_} {sx.show(op)[:60]} on the container as the earlier steps left it {sx.show(state)[:160]}: {m}"
+            if op[0] != "get_tag" and not is_err(step):
+                state = step[1]
+        return None
+    return oracle_single(case, io, mo)
+
+
+def oracle_single(case, io, mo):
     from props.m1common import alias_failure as _af
     if case[0] != "hist" and _af(io):
         return _af(io)
@@ -331,6 +389,8 @@ def oracle(case, io, mo):
 
 # ------------------------------------------------------------------------------------------------ evidence
 def nontrivial(case, io):
+    if case[0] == "chist":
+        return io is not None and sum(1 for x in io[1:] if not is_err(x)) >= 2
     if io is None or is_err(io):
         return False
     t = sp.norm(case[1])
@@ -359,6 +419,9 @@ def stats(results):
     for r in results:
         io = r.get("io")
         case = r["case"]
+        if case[0] == "chist":
+            c["tag / index history: steps=%d" % (len(case) - 2)] += 1
+            continue
         k = case[0] if case[0] == "get_tag" else case[2][0]
         c["op:" + k] += 1
         c[k + ":" + ("ok" if io and io[0] == "ok" else "err:" + (io[1] if io and len(io) > 1 else "?"))] += 1
@@ -370,6 +433,8 @@ def stats(results):
 
 
 def shrink(case):
+    if case[0] == "chist":
+        return [case[:i] + case[i + 1:] for i in range(2, len(case)) if len(case) > 3]
     if case[0] == "op" and case[2][0] == "tie_all":
         return []
     if case[0] == "get_tag":
@@ -385,6 +450,8 @@ def shrink(case):
 
 def neighbours(case):
     out = []
+    if case[0] == "chist":
+        return shrink(case)
     if case[0] == "get_tag":
         out = [["get_tag", case[1], tg] for tg in (1, 2, 3)]
     else:
